@@ -138,7 +138,7 @@ def py_issue(w, cfg, op, call):
         return ("err", "%s: %s" % (type(e).__name__, str(e)[:200]))
 
 
-def run_python(cfg, ops, chdir, per_step=None, end="close"):
+def run_python(cfg, ops, chdir, per_step=None, end="close", sibling=None):
     """Run ops through DigitalRFWriter.  Returns list of per-op results.
 
     end: how the session ends - "close" (explicit close()), "with" (context manager), "del" (the writer object is just
@@ -146,29 +146,53 @@ def run_python(cfg, ops, chdir, per_step=None, end="close"):
     import gc
 
     os.makedirs(chdir, exist_ok=True)
+    w2 = None
+    if sibling:
+        # a second writer object in this process (another channel directory), written alternately with the primary one
+        sib_dir = os.path.join(os.path.dirname(chdir), "_sib", "x", "ch0")  # too deep for a reader of the top directory
+        os.makedirs(sib_dir, exist_ok=True)
+        with quiet_fds():
+            w2 = open_py_writer(sibling["cfg"], sib_dir)
     with quiet_fds():
         w = open_py_writer(cfg, chdir)
     results = []
     last = None
     try:
+        sops = []
+        if w2 is not None:
+            from . import strategies
+            sops = strategies.sibling_ops(cfg, ops, sibling)
+            py_issue(w2, sibling["cfg"], sops[0], 1000)
         for call, op in enumerate(ops):
             r = py_issue(w, cfg, op, call)
             g = py_getters(w)
             results.append({"status": r[0], "ret": r[1], "get": g})
             if per_step:
                 per_step(call, op, results[-1], w)
+            if w2 is not None and call + 1 < len(sops) and sops[call + 1] is not None:
+                py_issue(w2, sibling["cfg"], sops[call + 1], 1001 + call)
     finally:
         with quiet_fds():
-            if end == "del":
-                last = py_getters(w)
-                del w
-                gc.collect()
-            elif end == "with":
-                with w:
+            if w2 is not None:
+                try:
+                    w2.close()
+                except Exception:
                     pass
-            else:
-                w.close()
-    results.append({"status": "closed", "ret": None, "get": last if end == "del" else py_getters(w)})
+            close_err = None
+            try:
+                if end == "del":
+                    last = py_getters(w)
+                    del w
+                    gc.collect()
+                elif end == "with":
+                    with w:
+                        pass
+                else:
+                    w.close()
+            except Exception as e:  # reported by the caller: after valid calls only, finalizing must succeed
+                close_err = "%s: %s" % (type(e).__name__, e)
+    results.append({"status": "closed" if close_err is None else "close-failed", "ret": close_err,
+                    "get": last if end == "del" else py_getters(w)})
     return results
 
 
